@@ -32,7 +32,7 @@ type round struct {
 	Pkgs     []rc.P `json:"pkgs"`
 	Cuts     []int  `json:"cuts"`
 	Strategy string `json:"strategy"` // next | until | nilcb
-	Plan     []int  `json:"plan"`     // per callback invocation: 0 continue, 1 true, 2 io.EOF, 3 error, 4 error wrapping io.EOF, 5 (true, error)
+	Plan     []int  `json:"plan"`     // per callback invocation: 0 continue, 1 true, 2 io.EOF, 3 error, 4 error wrapping io.EOF, 5 (true, error), 6 error after the caller cancelled its own context
 	Send     bool   `json:"send_before"`
 	// SendAfter > 0: the request completes only after that many response packets have
 	// already arrived (a fast server answers while the last request packet is still being
@@ -219,6 +219,11 @@ func runCase(c c03Case) (f *vh.Failure) {
 							return false, io.EOF
 						case 3:
 							return false, errCB
+						case 6:
+							// the consumer gives up because its own context has ended (return false,
+							// ctx.Err() in real code): what of the response is already there is consumed all the same
+							wcancel()
+							return false, errCB
 						case 5:
 							// "stop" together with an error (the form the library's own documentation
 							// shows: return true, DefinedError) is an abort with an error all the same
@@ -243,7 +248,7 @@ func runCase(c c03Case) (f *vh.Failure) {
 						runtime.Gosched()
 						continue
 					}
-					if (lastAct == 3 || lastAct == 4 || lastAct == 5) && !errors.Is(err, errCB) {
+					if (lastAct == 3 || lastAct == 4 || lastAct == 5 || lastAct == 6) && !errors.Is(err, errCB) {
 						wcancel()
 						return vh.Failf("C03/callback-error-not-returned", "%s: the callback failed (plan action %d) but NextPackageUntil returned %v", where, lastAct, err)
 					}
@@ -403,8 +408,12 @@ func genRound(rt *rapid.T) round {
 	r.Strategy = rapid.SampledFrom([]string{"next", "until", "until", "nilcb"}).Draw(rt, "strategy")
 	if r.Strategy == "until" {
 		n := rapid.IntRange(0, 8).Draw(rt, "planlen")
+		acts := []int{0, 0, 0, 1, 2, 3, 4, 5}
+		if r.Hold == 0 {
+			acts = append(acts, 6) // needs the whole response to have arrived
+		}
 		for i := 0; i < n; i++ {
-			r.Plan = append(r.Plan, rapid.SampledFrom([]int{0, 0, 0, 1, 2, 3, 4, 5}).Draw(rt, "act"))
+			r.Plan = append(r.Plan, rapid.SampledFrom(acts).Draw(rt, "act"))
 		}
 	}
 	return r
